@@ -311,7 +311,38 @@ func (p *c14) Run(w *lib.Worker, idx int, r *lib.Rand) lib.Case {
 			}
 			return
 		}
-		switch r.Intn(11) {
+		switch r.Intn(14) {
+		case 11:
+			// pointer items: deep value equality looks through pointers (distinct pointers to equal values are duplicates)
+			a, b, c3 := c14Strings[r.Intn(4)], c14Strings[r.Intn(4)], c14Strings[r.Intn(4)]
+			if r.Bool() {
+				data = []*string{&a, &b, &c3}
+			} else {
+				x, y := r.Intn(3), r.Intn(3)
+				data = []*int{&x, &y}
+			}
+		case 12:
+			// struct and array items which hold pointers or box slices / maps in an interface
+			x, y := r.Intn(2), r.Intn(2)
+			switch r.Intn(4) {
+			case 0:
+				data = []struct{ P *int }{{&x}, {&y}}
+			case 1:
+				data = []struct{ V interface{} }{{[]int{x}}, {[]int{y}}, {map[string]int{"k": x}}}
+			case 2:
+				data = [][1]interface{}{{[]string{c14Strings[x]}}, {[]string{c14Strings[y]}}}
+			default:
+				data = []interface{}{&x, &y, struct{ V interface{} }{[]int{x}}, struct{ V interface{} }{[]int{y}}}
+			}
+		case 13:
+			// numbers of different Go types at the top level: numerically equal ones are duplicates
+			pool := []interface{}{1, 1.0, int8(1), uint(2), 2.0, float32(2), int64(3), 2.5, uint16(1)}
+			n := r.Range(2, 4)
+			xs := make([]interface{}, n)
+			for i := range xs {
+				xs[i] = pool[r.Intn(len(pool))]
+			}
+			data = xs
 		case 8:
 			n, a, b := long()
 			xs := make([]string, n)
@@ -363,18 +394,24 @@ func (p *c14) Run(w *lib.Worker, idx int, r *lib.Rand) lib.Case {
 		default:
 			data = []interface{}{"a", "a"}[:r.Range(0, 2)]
 		}
-		render = fmt.Sprintf("UniqueItems(%#v)", data)
+		render = fmt.Sprintf("UniqueItems(%s)", renderDeep(data))
 		want = true
+		deepOnly := true // the verdict of plain reflect.DeepEqual, without numeric equality across Go types
 		if rv := reflect.ValueOf(data); rv.IsValid() && rv.Kind() == reflect.Slice {
 			nontrivial = true
-			for i := 0; i < rv.Len() && want; i++ {
+			for i := 0; i < rv.Len(); i++ {
 				for j := 0; j < i; j++ {
 					if model.GoEqual(rv.Index(i).Interface(), rv.Index(j).Interface()) {
 						want = false
-						break
+					}
+					if reflect.DeepEqual(rv.Index(i).Interface(), rv.Index(j).Interface()) {
+						deepOnly = false
 					}
 				}
 			}
+		}
+		if !want && deepOnly {
+			known = "uniqueitems-no-cross-type-numeric-equality"
 		}
 		snapArgs = []any{data}
 		call = func() any { return validate.UniqueItems("p", "body", data) }
@@ -586,4 +623,43 @@ func stringKind(v any) (string, bool) {
 		return rv.String(), true
 	}
 	return "", false
+}
+
+// renderDeep renders a value with pointers followed (two pointers to equal values render alike).
+func renderDeep(v any) string {
+	var f func(rv reflect.Value) string
+	f = func(rv reflect.Value) string {
+		if !rv.IsValid() {
+			return "nil"
+		}
+		switch rv.Kind() {
+		case reflect.Ptr:
+			if rv.IsNil() {
+				return "nil"
+			}
+			return "&" + f(rv.Elem())
+		case reflect.Interface:
+			if rv.IsNil() {
+				return "nil"
+			}
+			return f(rv.Elem())
+		case reflect.Slice, reflect.Array:
+			parts := make([]string, rv.Len())
+			for i := range parts {
+				parts[i] = f(rv.Index(i))
+			}
+			return rv.Type().String() + "{" + strings.Join(parts, ", ") + "}"
+		case reflect.Struct:
+			parts := make([]string, rv.NumField())
+			for i := range parts {
+				parts[i] = rv.Type().Field(i).Name + ":" + f(rv.Field(i))
+			}
+			return "{" + strings.Join(parts, ", ") + "}"
+		case reflect.String, reflect.Bool, reflect.Map:
+			return fmt.Sprintf("%#v", rv.Interface())
+		default:
+			return fmt.Sprintf("%s(%v)", rv.Type(), rv.Interface())
+		}
+	}
+	return f(reflect.ValueOf(v))
 }
